@@ -491,8 +491,26 @@ class Assembler:
                 self.emit(a, 'template:%d' % tline, None, qual)
         origin = '%s:%d' % (repo_file, ls[0])
         self.emit_block(sig.rstrip(), origin, qual)
+        probe_line = None
+        if getattr(self, 'probe', False) and 'assumed' not in opts:
+            # vacuity probe (thorough tier): `assert(false)` as the first statement of the body MUST fail - if it
+            # verifies, the function's precondition (or a type invariant it relies on) is contradictory.  It is an
+            # in-body assertion, so it does not leak into the contracts callers see.
+            ptag = 'probe.%s.%d' % (name, len(self.functions))
+            probe_line = (tline, '        proof { assert(false); } // @ob PROBE %s' % ptag)
         self.annotation_lines(contract, 'template', qual, 'contract')
         pos = 0
+        if probe_line is not None:
+            for (idx, kind, lines, extra) in inserts:
+                if kind == 'proof' and any('hide(' in ln for (_, ln) in lines):
+                    lines.append(probe_line); probe_line = None
+                    break
+        if probe_line is not None:
+            ob = body.index('{')
+            self.emit_block(body[:ob + 1], origin, qual)
+            self.annotation_lines([probe_line], 'template', qual, 'proof')
+            pos = ob + 1
+            inserts = [x for x in inserts if x[0] >= pos]
         for (idx, kind, lines, extra) in inserts:
             if kind == 'ann':
                 self.emit_block(body[pos:idx].rstrip(' \t'), origin, qual)
@@ -523,7 +541,10 @@ class Assembler:
         while i < len(lines):
             ln = lines[i]
             s = ln.strip()
-            if s.startswith('//@include'):
+            if s.startswith('//@probeinclude'):
+                if getattr(self, 'probe', False):
+                    self.do_include(s.split(None, 1)[1].strip(), i + 1)
+            elif s.startswith('//@include'):
                 self.do_include(s.split(None, 1)[1].strip(), i + 1)
             elif s.startswith('//@items'):
                 parts = [p.strip() for p in s[len('//@items'):].split('|')]
@@ -629,10 +650,12 @@ class Assembler:
             if extra:
                 raise AnchorError('functions in %s [%s] not under contract: %s' % (rf, cont, ', '.join(sorted(extra))))
 
-def assemble(unit, outdir):
+def assemble(unit, outdir, probe=False):
     tpl = os.path.join(SPECS, 'units', unit + '.rs')
     a = Assembler(unit)
+    a.probe = probe
     a.run(tpl)
+    if probe: unit = unit + '_probe'
     os.makedirs(outdir, exist_ok=True)
     out_rs = os.path.join(outdir, unit + '.rs')
     open(out_rs, 'w').write('\n'.join(a.out) + '\n')
